@@ -16,6 +16,7 @@ type Scope struct {
 	resolve    func(string) (Term, bool)
 	resolveOld func(string) (Term, bool)
 	inOld      bool
+	entry      *Scope // scope of the loop-entry state (for entry(e))
 }
 
 func (s *Scope) child() *Scope {
@@ -173,6 +174,11 @@ func (s *Scope) Eval(e Expr) Term {
 		n := *s
 		n.inOld = true
 		return (&n).Eval(e.X)
+	case EEntry:
+		if s.entry == nil {
+			unsupported("entry(...) outside a loop contract")
+		}
+		return s.entry.Eval(e.X)
 	case EUn:
 		v := s.Eval(e.X)
 		if e.Op == "!" {
@@ -466,6 +472,9 @@ func (s *Scope) evalCall(e ECall) Term {
 		case "sameseq": // extensional equality
 			as := args()
 			return x.seqEq(as[0], as[1])
+		case "same": // structural identity (same backing array, offset and length for sequences)
+			as := args()
+			return Eq(as[0], as[1])
 		case "off": // offset attribute of a slice/string value inside its backing array
 			return w.SeqOff(s.Eval(e.Args[0]))
 		case "samebase":
